@@ -1254,12 +1254,12 @@ def c20(W, replay=None):
         log("[design] with one watcher per file (superseding) the model %s Rotation" % ("VIOLATES" if viol else "satisfies"))
         out, viol = W.tlc_exhaustive("TLSTrust", cfg_text("Spec", dict(MaxLen=7, MaxCfgs=2, WatcherPerFile="FALSE", Export="TRUE"), [], view="view",
                                                           extra="ACTION_CONSTRAINT PrintTransition\n"), "tls-transitions", workers=1, timeout=3000)
-        hs = sample(W, W.scenarios_from(out), 1500 if thorough else 160)
+        hs = sample(W, W.scenarios_from(out), 1500 if thorough else 110)
         scen += [{"id": "c20/t/%d" % i, "events": h} for i, h in enumerate(hs)]
         cfg = cfg_text("Spec", dict(MaxLen=9, MaxCfgs=3, WatcherPerFile="FALSE", Export="TRUE"), ["PrintFull"])
         out, gen, dist, viol, d = W.tlc("TLSTrust", cfg, "tls-walks", workers=1, simulate="num=%d" % (1500 if thorough else 200),
                                         extra=["-depth", "9", "-seed", str(W.seed)], timeout=900)
-        ws = sample(W, W.scenarios_from(out), 800 if thorough else 60)
+        ws = sample(W, W.scenarios_from(out), 800 if thorough else 40)
         scen += [{"id": "c20/w/%d" % i, "events": h} for i, h in enumerate(ws)]
     else:
         scen = [json.loads(l) for l in open(os.path.join(replay, "scenario.ndjson")) if l.strip()]
